@@ -1,109 +1,3 @@
--- GENERATED by tools/translate.py from src/io/mesh_writer.cpp, src/io/mesh_reader.cpp, include/io/mesh_data.hpp, include/utils.hpp, src/io/simulation_initializer.cpp — do not edit.
-import SimuVerif.Model.Vec
-set_option linter.unusedVariables false
-namespace Simu.Gen
-open Simu
-variable {R : Type} [Add R] [Sub R] [Mul R] [Div R] [Neg R] [Lit R] [LT R] [LE R] [DecidableLT R] [DecidableLE R] [DecidableEq R]
-namespace Vtk
-/-- `header` of write_cell_data_file(ofstream&, vector<cell_ptr>&, bool) -/
-def wHeader : List Char := ['#', ' ', 'v', 't', 'k', ' ', 'D', 'a', 't', 'a', 'F', 'i', 'l', 'e', ' ', 'V', 'e', 'r', 's', 'i', 'o', 'n', ' ', '4', '.', '2', '\n', 'v', 't', 'k', ' ', 'o', 'u', 't', 'p', 'u', 't', '\n', 'A', 'S', 'C', 'I', 'I', '\n', 'D', 'A', 'T', 'A', 'S', 'E', 'T', ' ', 'U', 'N', 'S', 'T', 'R', 'U', 'C', 'T', 'U', 'R', 'E', 'D', '_', 'G', 'R', 'I', 'D', '\n']
-def wPointsKw : List Char := ['P', 'O', 'I', 'N', 'T', 'S', ' ']
-def wPointsType : List Char := [' ', 'f', 'l', 'o', 'a', 't', '\n']
-/-- format string of the node coordinates (write_point_data) -/
-def wCoordFormat : List Char := ['%', '.', '4', 'e']
-def wCoordsPerLine : Nat := 9
-/-- `nb_int_cell = BASE + faces * PERFACE` (write_cell_data, cells) -/
-def wIntsPerCellBase : Nat := 1
-def wIntsPerFace : Nat := 4
-def wCellsKw : List Char := ['\n', '\n', 'C', 'E', 'L', 'L', 'S', ' ']
-/-- the literal written in front of the three node ids of every face -/
-def wFaceArity : Nat := 3
-def wCellTypesKw : List Char := ['\n', 'C', 'E', 'L', 'L', '_', 'T', 'Y', 'P', 'E', 'S', ' ']
-/-- the line written once per cell in CELL_TYPES -/
-def wPolyLine : List Char := ['4', '2', '\n']
-def wCellDataKw : List Char := ['\n', 'C', 'E', 'L', 'L', '_', 'D', 'A', 'T', 'A', ' ']
-def wFieldKw : List Char := ['F', 'I', 'E', 'L', 'D', ' ', 'F', 'i', 'e', 'l', 'd', 'D', 'a', 't', 'a', ' ']
-/-- text between the array name and the tuple count -/
-def wArrayComps : List Char := [' ', '1', ' ']
-def wValuesPerLine : Nat := 9
-/-- (name, type) of the arrays written after CELL_DATA, in order (mesh_data.hpp cell_data_mapper_lst) -/
-def cellArrays : List (List Char × List Char) := [(['c', 'e', 'l', 'l', '_', 'i', 'd'], ['i', 'n', 't']), (['c', 'e', 'l', 'l', '_', 't', 'y', 'p', 'e', '_', 'i', 'd'], ['i', 'n', 't']), (['c', 'e', 'l', 'l', '_', 'a', 'r', 'e', 'a'], ['f', 'l', 'o', 'a', 't']), (['c', 'e', 'l', 'l', '_', 'v', 'o', 'l', 'u', 'm', 'e'], ['f', 'l', 'o', 'a', 't']), (['c', 'e', 'l', 'l', '_', 'p', 'r', 'e', 's', 's', 'u', 'r', 'e'], ['f', 'l', 'o', 'a', 't']), (['c', 'e', 'l', 'l', '_', 'g', 'r', 'o', 'w', 't', 'h', '_', 'r', 'a', 't', 'e'], ['f', 'l', 'o', 'a', 't']), (['c', 'e', 'l', 'l', '_', 'd', 'i', 'v', 'i', 's', 'i', 'o', 'n', '_', 'v', 'o', 'l'], ['f', 'l', 'o', 'a', 't']), (['c', 'e', 'l', 'l', '_', 'i', 's', '_', 's', 't', 'a', 't', 'i', 'c'], ['i', 'n', 't'])]
-def wCellIdFormat : List Char := ['%', 'd']
-/-- what is written for a cell without a type -/
-def wNoTypeId : Int := (-1)
-def wTypeIdFormat : List Char := ['%', 'd']
-/-- size of the sprintf buffer of format_number (utils.hpp) -/
-def fmtBuffer : Nat := 30
-def rxCtor_rgx_1 : List Char := ['#', ' ', 'v', 't', 'k', ' ', 'D', 'a', 't', 'a', 'F', 'i', 'l', 'e', ' ', 'V', 'e', 'r', 's', 'i', 'o', 'n', ' ', '(', '\\', 'd', '*', '\\', '.', '?', '\\', 'd', '*', ')']
-def rxNodePos_rgx_1 : List Char := ['P', 'O', 'I', 'N', 'T', 'S', ' ', '(', '[', '0', '-', '9', ']', '+', ')', ' ', '(', '[', 'a', '-', 'z', ']', '+', ')']
-def rxNodePos_rgx_2 : List Char := ['(', '[', 'A', '-', 'Z', 'a', '-', 'z', '_', ']', ')', '{', '2', ',', '}']
-def rxNodePos_rgx_3 : List Char := ['(', '[', '-', '\\', '+', ']', '?', '[', '\\', 'd', '.', ']', '+', '(', '?', ':', '[', 'e', '|', 'E', ']', '[', '-', '\\', '+', ']', '?', '\\', 'd', '+', ')', '?', ')']
-def rxFaces_rgx_0 : List Char := ['C', 'E', 'L', 'L', '_', 'T', 'Y', 'P', 'E', 'S', ' ', '(', '[', '0', '-', '9', ']', '+', ')']
-def rxFaces_rgx_1 : List Char := ['(', '[', 'A', '-', 'Z', ']', ')']
-def rxFaces_rgx_2 : List Char := ['[', '0', '-', '9', ']', '+']
-def rxFaces_rgx_3 : List Char := ['C', 'E', 'L', 'L', 'S', ' ', '(', '[', '0', '-', '9', ']', '+', ')', ' ', '(', '[', '0', '-', '9', ']', ')', '+']
-def rxFaces_rgx_4 : List Char := ['[', 'A', '-', 'Z', ']']
-def rxFaces_rgx_5 : List Char := ['^', '[', '0', '-', '9', ']', '+']
-def rxFaces_rgx_6 : List Char := ['[', '0', '-', '9', ']', '+']
-def rxTypes_rgx_1 : List Char := ['[', 'C', '|', 'c', ']', 'e', 'l', 'l', '_', 't', 'y', 'p', 'e', '_', 'i', 'd', ' ', '[', '0', '-', '9', ']', '+', ' ', '[', '0', '-', '9', ']', '+', ' ', '[', 'a', '-', 'z', 'A', '-', 'Z', ']', '+']
-def rxTypes_rgx_2 : List Char := ['[', 'A', '-', 'Z', 'a', '-', 'z', ']']
-def rxTypes_rgx_3 : List Char := ['(', '[', '0', '-', '9', ']', '+', ')']
-def rCoordTypes : List (List Char) := [['f', 'l', 'o', 'a', 't'], ['d', 'o', 'u', 'b', 'l', 'e']]
-def rPolyType : Nat := 42
-/-- `if (line.size() <= N) continue;` -/
-def rLineSkip : Nat := 3
-def rCellTextStart : Nat := 1
-/-- longest run of non-space characters the repaired constructor accepts (0: guard absent) -/
-def rMaxToken : Nat := 4096
-def fixTokenGuard : Bool := true
-/-- every global node id is checked against the number of points before it is used as an index -/
-def fixFaceIndexRange : Bool := true
-/-- an empty connectivity list is rejected before its first element is read -/
-def fixEmptyCellLine : Bool := true
-/-- declared counts bound the reservations only up to the size of the text (no int overflow, no huge allocation) -/
-def fixBoundedReserve : Bool := true
-/-- (function, first 48 characters of the message) of every `throw mesh_reader_exception` in source order -/
-def readerThrows : List (List Char × List Char) := [
-  (['c', 't', 'o', 'r'], ['E', 'R', 'R', 'O', 'R', ':', ' ', 'i', 'n', 'p', 'u', 't', ' ', 'm', 'e', 's', 'h', ' ', 'f', 'i', 'l', 'e', ' ']),
-  (['c', 't', 'o', 'r'], ['E', 'R', 'R', 'O', 'R', ':', ' ', 'i', 'n', 'p', 'u', 't', ' ', 'm', 'e', 's', 'h', ' ', 'f', 'i', 'l', 'e', ',', ' ', 't', 'o', 'k', 'e', 'n', ' ', 'l', 'o', 'n', 'g', 'e', 'r', ' ', 't', 'h', 'a', 'n', ' ']),
-  (['c', 't', 'o', 'r'], ['E', 'R', 'R', 'O', 'R', ':', ' ', 'h', 'e', 'a', 'd', 'e', 'r', ' ', 'w', 'i', 't', 'h', ' ', '.', 'v', 't', 'k', ' ', 'f', 'i', 'l', 'e', ' ', 'v', 'e', 'r', 's', 'i', 'o', 'n', ' ', 'n', 'o', 't', ' ', 'f', 'o', 'u', 'n', 'd']),
-  (['g', 'e', 't', '_', 'n', 'o', 'd', 'e', '_', 'p', 'o', 's'], ['E', 'R', 'R', 'O', 'R', ':', ' ', 'i', 'n', 'p', 'u', 't', ' ', 'm', 'e', 's', 'h', ' ', 'f', 'i', 'l', 'e', ',', ' ', 'l', 'i', 'n', 'e', ' ', 'w', 'i', 't', 'h', ' ', 'n', 'u', 'm', 'b', 'e', 'r', ' ', 'o', 'f', ' ', 'p', 'o', 'i', 'n']),
-  (['g', 'e', 't', '_', 'n', 'o', 'd', 'e', '_', 'p', 'o', 's'], ['E', 'R', 'R', 'O', 'R', ':', ' ', 'i', 'n', 'p', 'u', 't', ' ', 'm', 'e', 's', 'h', ' ', 'f', 'i', 'l', 'e', ',', ' ', 'n', 'o', 'd', 'e', 's', ' ', 'h', 'a', 'v', 'e', ' ', 'i', 'n', 'c', 'o', 'r', 'r', 'e', 'c', 't', ' ', 'f', 'o', 'r']),
-  (['g', 'e', 't', '_', 'n', 'o', 'd', 'e', '_', 'p', 'o', 's'], ['E', 'R', 'R', 'O', 'R', ':', ' ', 'i', 'n', 'p', 'u', 't', ' ', 'm', 'e', 's', 'h', ' ', 'f', 'i', 'l', 'e', ',', ' ', 'i', 'm', 'p', 'o', 's', 's', 'i', 'b', 'l', 'e', ' ', 'n', 'o', 'd', 'e', ' ', 'v', 'a', 'l', 'u', 'e', ' ', 'c', 'o']),
-  (['g', 'e', 't', '_', 'n', 'o', 'd', 'e', '_', 'p', 'o', 's'], ['E', 'R', 'R', 'O', 'R', ':', ' ', 'i', 'n', 'p', 'u', 't', ' ', 'm', 'e', 's', 'h', ' ', 'f', 'i', 'l', 'e', ',', ' ', 'n', 'o', 'd', 'e', ' ', 'v', 'a', 'l', 'u', 'e', ' ', 'i', 's', ' ', 'n', 'o', 't', ' ', 'f', 'i', 'n', 'i', 't', 'e']),
-  (['g', 'e', 't', '_', 'n', 'o', 'd', 'e', '_', 'p', 'o', 's'], ['E', 'R', 'R', 'O', 'R', ' ', 'm', 'e', 's', 'h', '_', 'r', 'e', 'a', 'd', 'e', 'r', ':', ' ', 'n', 'o', 't', ' ', 'a', 'l', 'l', ' ', 't', 'h', 'e', ' ', 'n', 'o', 'd', 'e', 's', ' ', 'w', 'e', 'r', 'e', ' ', 'l', 'o', 'a', 'd', 'e', 'd']),
-  (['r', 'e', 'a', 'd', '_', 'c', 'e', 'l', 'l', '_', 'f', 'a', 'c', 'e', 's'], ['E', 'R', 'R', 'O', 'R', ':', ' ', 'i', 'n', 'p', 'u', 't', ' ', 'm', 'e', 's', 'h', ' ', 'f', 'i', 'l', 'e', ',', ' ', 'c', 'o', 'u', 'l', 'd', ' ', 'n', 'o', 't', ' ', 'f', 'i', 'n', 'd', ' ', 'C', 'E', 'L', 'L', '_', 'T', 'Y', 'P', 'E']),
-  (['r', 'e', 'a', 'd', '_', 'c', 'e', 'l', 'l', '_', 'f', 'a', 'c', 'e', 's'], ['E', 'R', 'R', 'O', 'R', ':', ' ', 'i', 'n', 'p', 'u', 't', ' ', 'm', 'e', 's', 'h', ' ', 'f', 'i', 'l', 'e', ',', ' ', 'i', 'm', 'p', 'o', 's', 's', 'i', 'b', 'l', 'e', ' ', 'n', 'o', 'd', 'e', ' ', 'v', 'a', 'l', 'u', 'e', ' ', 'c', 'o']),
-  (['r', 'e', 'a', 'd', '_', 'c', 'e', 'l', 'l', '_', 'f', 'a', 'c', 'e', 's'], ['E', 'R', 'R', 'O', 'R', ':', ' ', 'c', 'e', 'l', 'l', ' ', 'i', 's', ' ', 'n', 'o', 't', ' ', 'a', ' ', 'p', 'o', 'l', 'y', 'h', 'e', 'd', 'r', 'o', 'n', ' ', '(', 't', 'y', 'p', 'e', ' ', '4', '2', ')', ' ', 'b', 'u', 't', ' ', 'h', 'a']),
-  (['r', 'e', 'a', 'd', '_', 'c', 'e', 'l', 'l', '_', 'f', 'a', 'c', 'e', 's'], ['E', 'R', 'R', 'O', 'R', ':', ' ', 'n', 'o', 't', ' ', 'a', 'l', 'l', ' ', 'c', 'e', 'l', 'l', 's', ' ', 'h', 'a', 'v', 'e', ' ', 'a', ' ', 'C', 'E', 'L', 'L', '_', 'T', 'Y', 'P', 'E', ' ', 'd', 'e', 'f', 'i', 'n', 'e', 'd', '.', ' ', 'n']),
-  (['r', 'e', 'a', 'd', '_', 'c', 'e', 'l', 'l', '_', 'f', 'a', 'c', 'e', 's'], ['E', 'R', 'R', 'O', 'R', ' ', 'm', 'e', 's', 'h', '_', 'r', 'e', 'a', 'd', 'e', 'r', ':', ' ', 'C', 'E', 'L', 'L', 'S', ' ', 'l', 'i', 'n', 'e', ' ', 'n', 'o', 't', ' ', 'f', 'o', 'u', 'n', 'd', '.', ' ', 'I', 'n', 'p', 'u', 't', ' ', 'f']),
-  (['r', 'e', 'a', 'd', '_', 'c', 'e', 'l', 'l', '_', 'f', 'a', 'c', 'e', 's'], ['E', 'R', 'R', 'O', 'R', ':', ' ', 'i', 'n', 'p', 'u', 't', ' ', 'm', 'e', 's', 'h', ' ', 'f', 'i', 'l', 'e', ',', ' ', 'c', 'o', 'u', 'l', 'd', ' ', 'n', 'o', 't', ' ', 'f', 'i', 'n', 'd', ' ', 't', 'h', 'e', ' ', 'e', 'n', 'd', ' ', 'o']),
-  (['r', 'e', 'a', 'd', '_', 'c', 'e', 'l', 'l', '_', 'f', 'a', 'c', 'e', 's'], ['E', 'R', 'R', 'O', 'R', ':', ' ', 'C', 'E', 'L', 'L', ' ', 's', 'e', 'c', 't', 'i', 'o', 'n', ' ', 'o', 'f', ' ', 't', 'h', 'e', ' ', 'i', 'n', 'p', 'u', 't', ' ', 'm', 'e', 's', 'h', ' ', 'f', 'i', 'l', 'e', ' ', 'c', 'o', 'r', 'r', 'u']),
-  (['r', 'e', 'a', 'd', '_', 'c', 'e', 'l', 'l', '_', 'f', 'a', 'c', 'e', 's'], ['E', 'R', 'R', 'O', 'R', ':', ' ', 'c', 'o', 'u', 'l', 'd', ' ', 'n', 'o', 't', ' ', 'r', 'e', 'a', 'd', ' ', 'f', 'a', 'c', 'e', ' ', 'd', 'a', 't', 'a', ' ', 'o', 'f', ' ', 'c', 'e', 'l', 'l', ' ']),
-  (['r', 'e', 'a', 'd', '_', 'c', 'e', 'l', 'l', '_', 'f', 'a', 'c', 'e', 's'], ['E', 'R', 'R', 'O', 'R', ':', ' ', 'c', 'o', 'u', 'l', 'd', ' ', 'n', 'o', 't', ' ', 'r', 'e', 'a', 'd', ' ', 't', 'h', 'e', ' ', 'd', 'a', 't', 'a', ' ', 'o', 'f', ' ', 'c', 'e', 'l', 'l', ' ']),
-  (['g', 'e', 't', '_', 'c', 'e', 'l', 'l', '_', 'm', 'e', 's', 'h'], ['E', 'R', 'R', 'O', 'R', ':', ' ', 'i', 'n', 'p', 'u', 't', ' ', 'm', 'e', 's', 'h', ' ', 'f', 'i', 'l', 'e', ',', ' ', 'a', ' ', 'c', 'e', 'l', 'l', ' ', 'o', 'f', ' ', 't', 'h', 'e', ' ', 'C', 'E', 'L', 'L', 'S', ' ', 's', 'e', 'c', 't']),
-  (['g', 'e', 't', '_', 'c', 'e', 'l', 'l', '_', 'm', 'e', 's', 'h'], ['E', 'R', 'R', 'O', 'R', ':', ' ', 'i', 'n', 'p', 'u', 't', ' ', 'm', 'e', 's', 'h', ' ', 'f', 'i', 'l', 'e', ',', ' ', 'f', 'a', 'c', 'e', ' ', 'c', 'o', 'n', 'n', 'e', 'c', 't', 'i', 'v', 'i', 't', 'y', ' ', 'd', 'a', 't', 'a', ' ', 'c']),
-  (['g', 'e', 't', '_', 'c', 'e', 'l', 'l', '_', 'm', 'e', 's', 'h'], ['E', 'R', 'R', 'O', 'R', ':', ' ', 'n', 'b', ' ', 'n', 'o', 'd', 'e', 's', ' ', 'i', 'n', ' ', 'f', 'a', 'c', 'e', ' ', 'n', 'o', 't', ' ', 'c', 'o', 'r', 'r', 'e', 'c', 't', ' ']),
-  (['g', 'e', 't', '_', 'c', 'e', 'l', 'l', '_', 'm', 'e', 's', 'h'], ['E', 'R', 'R', 'O', 'R', ':', ' ', 'n', 'b', ' ', 'f', 'a', 'c', 'e', 's', ' ', 'i', 'n', ' ', 'm', 'e', 's', 'h', ' ', 'n', 'o', 't', ' ', 'c', 'o', 'r', 'r', 'e', 'c', 't', ' ']),
-  (['g', 'e', 't', '_', 'c', 'e', 'l', 'l', '_', 'm', 'e', 's', 'h'], ['E', 'R', 'R', 'O', 'R', ':', ' ', 'i', 'n', 'p', 'u', 't', ' ', 'm', 'e', 's', 'h', ' ', 'f', 'i', 'l', 'e', ',', ' ', 'a', ' ', 'f', 'a', 'c', 'e', ' ', 'r', 'e', 'f', 'e', 'r', 's', ' ', 't', 'o', ' ', 't', 'h', 'e', ' ', 'p', 'o', 'i']),
-  (['g', 'e', 't', '_', 'c', 'e', 'l', 'l', '_', 'm', 'e', 's', 'h'], ['E', 'R', 'R', 'O', 'R', ':', ' ', 's', 'o', 'm', 'e', 't', 'h', 'i', 'n', 'g', ' ', 'w', 'e', 'n', 't', ' ', 'w', 'r', 'o', 'n', 'g', ' ', 'w', 'h', 'i', 'l', 'e', ' ', 'l', 'o', 'a', 'd', 'i', 'n', 'g', ' ', 't', 'h', 'e', ' ', 'm', 'e']),
-  (['g', 'e', 't', '_', 'c', 'e', 'l', 'l', '_', 't', 'y', 'p', 'e', 's'], ['E', 'R', 'R', 'O', 'R', ' ', 'm', 'e', 's', 'h', '_', 'r', 'e', 'a', 'd', 'e', 'r', ':', ' ', 'c', 'o', 'u', 'l', 'd', ' ', 'n', 'o', 't', ' ', 'l', 'o', 'c', 'a', 't', 'e', ' ', 't', 'h', 'e', ' ', 'c', 'e', 'l', 'l', '_', 't', 'y', 'p']),
-  (['g', 'e', 't', '_', 'c', 'e', 'l', 'l', '_', 't', 'y', 'p', 'e', 's'], ['E', 'R', 'R', 'O', 'R', ':', ' ', 'i', 'n', 'p', 'u', 't', ' ', 'm', 'e', 's', 'h', ' ', 'f', 'i', 'l', 'e', ',', ' ', 'i', 'm', 'p', 'o', 's', 's', 'i', 'b', 'l', 'e', ' ', 'c', 'e', 'l', 'l', ' ', 't', 'y', 'p', 'e', ' ', 'i', 'd', ' ']),
-  (['g', 'e', 't', '_', 'c', 'e', 'l', 'l', '_', 't', 'y', 'p', 'e', 's'], ['E', 'R', 'R', 'O', 'R', ':', ' ', 'i', 'n', 'p', 'u', 't', ' ', 'm', 'e', 's', 'h', ' ', 'f', 'i', 'l', 'e', ',', ' ', 't', 'h', 'e', ' ', 'c', 'e', 'l', 'l', ' ', 't', 'y', 'p', 'e', ' ', 'i', 'd', ' ', 'i', 's', ' ', 'n', 'o', 't', ' '])]
-/-- number of std::stoi calls in the reader -/
-def nStoi : Nat := 7
-def nStod : Nat := 2
-def nCatchInvalid : Nat := 4
-def nCatchOther : Nat := 0
-def initThrows : List (List Char × List Char) := [
-  (['r', 'u', 'n'], ['A', 'l', 'l', ' ', 'c', 'e', 'l', 'l', ' ', 't', 'y', 'p', 'e', 's', ' ', 'm', 'u', 's', 't', ' ', 'h', 'a', 'v', 'e', ' ', 'a', 't', ' ', 'l', 'e', 'a', 's', 't', ' ', 'o', 'n', 'e', ' ', 'f', 'a', 'c', 'e', ' ', 't', 'y', 'p', 'e', ' ']),
-  (['r', 'u', 'n'], ['T', 'h', 'e', ' ', 'n', 'u', 'm', 'b', 'e', 'r', ' ', 'o', 'f', ' ', 'c', 'e', 'l', 'l', 's', ' ', 'a', 'n', 'd', ' ', 't', 'h', 'e', ' ', 'n', 'u', 'm', 'b', 'e', 'r', ' ', 'o', 'f', ' ', 'c', 'e', 'l', 'l', ' ', 't', 'y', 'p', 'e', 's']),
-  (['r', 'u', 'n'], ['T', 'h', 'e', ' ', 'c', 'e', 'l', 'l', ' ', 't', 'y', 'p', 'e', ' ', 'i', 'd', ' ', 'o', 'f', ' ', 'c', 'e', 'l', 'l', ' ']),
-  (['t', 'r', 'i', 'a', 'n', 'g', 'u', 'l', 'a', 't', 'e', '_', 's', 'u', 'r', 'f', 'a', 'c', 'e'], ['I', 'f', ' ', 'y', 'o', 'u', ' ', 'd', 'i', 's', 'a', 'b', 'l', 'e', ' ', 't', 'h', 'e', ' ', 'i', 'n', 'i', 't', 'i', 'a', 'l', ' ', 't', 'r', 'i', 'a', 'n', 'g', 'u', 'l', 'a', 't', 'i', 'o', 'n', ',', ' ', 't', 'h', 'e', ' ', 'i', 'n']),
-  (['t', 'r', 'i', 'a', 'n', 'g', 'u', 'l', 'a', 't', 'e', '_', 's', 'u', 'r', 'f', 'a', 'c', 'e'], ['T', 'h', 'e', ' ', 'c', 'e', 'l', 'l', ' ', 't', 'y', 'p', 'e', ' ', 'i', 'd', ' ', 'o', 'f', ' ', 'c', 'e', 'l', 'l', ' ']),
-  (['t', 'r', 'i', 'a', 'n', 'g', 'u', 'l', 'a', 't', 'e', '_', 's', 'u', 'r', 'f', 'a', 'c', 'e'], ['T', 'h', 'e', ' ', 'c', 'e', 'l', 'l', ' '])]
-def initTriangleArity : Nat := 3
-def initMaxTries : Nat := 10
-end Vtk
-
-end Simu.Gen
+-- GENERATED: translation FAILED
+#eval (throw (IO.userError "translator failed for VtkConsts: cell_type_id mapper changed") : IO Unit)
+translator_failed
